@@ -45,23 +45,63 @@ LitAgrees(r, D) ==
   /\ r.compiled => (r.panic = "" /\ r.obs = o.obs /\ r.eq = o.eq)
 Agrees(r, D) == IF r.kind = "map" THEN MapAgrees(r, D) ELSE LitAgrees(r, D)
 
+(* Second level: the property as STATED, free of this model's choices.  The statement demands (i) the value comes back
+   from the JSON (as a value and through its text), (ii) the JSON is an object keyed by the field / renamed names, an
+   array for tuple structs, a string for enum variants, (iii) a json! literal equals, by the crate's own ==, the parse
+   of the equivalent text.  It does NOT fix the order of an object's members, nor that the documented text in
+   declaration order reads back / compares equal under an order-sensitive == (pe, fe), nor serialiser/parser agreement
+   (sp, C13).  An observation the code model cannot explain but that satisfies this reading is DRIFT of the model,
+   not a violation.  Arrays stay ordered; member names are distinct in the domain (WellFormed / distinct keys). *)
+RECURSIVE SameModOrder(_, _)
+SameModOrder(a, b) ==
+  /\ a.t = b.t /\ a.s = b.s /\ Len(a.c) = Len(b.c) /\ Len(a.k) = Len(b.k)
+  /\ IF a.t = "obj"
+     THEN \A i \in 1..Len(a.k) : \E j \in 1..Len(b.k) : a.k[i] = b.k[j] /\ SameModOrder(a.c[i], b.c[j])
+     ELSE \A i \in 1..Len(a.c) : SameModOrder(a.c[i], b.c[i])
+PropAgrees(r, D) ==
+  IF r.kind = "map"
+  THEN LET o == Observe(r.v, Lookup(r.prog, r.d), r.prog, D) IN
+       /\ r.compiled = o.c
+       /\ r.compiled => (r.panic = "" /\ r.rt = o.rt /\ r.rtt = o.rt /\ SameModOrder(r.obs, o.obs))
+  ELSE LET o == ObserveLit(r.ast, D) IN
+       /\ r.compiled = o.ok
+       /\ r.compiled => (r.panic = "" /\ r.eq = o.eq /\ SameModOrder(r.obs, o.obs))
+
+(* Inputs that lie beyond the statement's quantifier (growth of the check): f32 fields ("bool, integers, f64, String"),
+   json! member names that are not string literals (the documentation only shows string-literal keys), containers with
+   20 or more items (their expansion depth depends on how many macro steps an element costs). A disagreement on such
+   an input is reported as drift. *)
+RECURSIVE LitBeyond(_)
+LitBeyond(n) == \/ Len(n.items) >= 20
+                \/ (n.k = "obj" /\ \E i \in 1..Len(n.ks) : n.ks[i] \in NonLiteralKeys)
+                \/ \E i \in 1..Len(n.items) : LitBeyond(n.items[i])
+Beyond(r) == IF r.kind = "map"
+             THEN \E i \in 1..Len(r.prog) : \E h \in 1..Len(r.prog[i].fields) : r.prog[i].fields[h].ty.base = "F32"
+             ELSE LitBeyond(r.ast)
+
+\* "ok" | a deviation name (strictly, or on the statement's level) | "drift" | "rejected" | "baddomain"
 Verdict(r) ==
   IF ~InDomain(r) THEN "baddomain"
   ELSE IF Agrees(r, {}) THEN "ok"
   ELSE IF \E a \in 1..Len(AttrDevs) : Agrees(r, {AttrDevs[a]})
        THEN AttrDevs[CHOOSE a \in 1..Len(AttrDevs) : Agrees(r, {AttrDevs[a]})]
-       ELSE "rejected"
+  ELSE IF PropAgrees(r, {}) THEN "drift"
+  ELSE IF \E a \in 1..Len(AttrDevs) : PropAgrees(r, {AttrDevs[a]})
+       THEN AttrDevs[CHOOSE a \in 1..Len(AttrDevs) : PropAgrees(r, {AttrDevs[a]})]
+  ELSE IF Beyond(r) THEN "drift"
+  ELSE "rejected"
 
-VARIABLES l, bad, att
-tvars == <<l, bad, att>>
+VARIABLES l, bad, att, dri
+tvars == <<l, bad, att, dri>>
 TInit == /\ mode = "trace" /\ cur = NoDecl /\ first = 0 /\ stk = <<>> /\ lit = NoLit /\ nn = 0
-         /\ l = 1 /\ bad = <<>> /\ att = <<>>
+         /\ l = 1 /\ bad = <<>> /\ att = <<>> /\ dri = <<>>
 Expecting == IOEnv.EXPECT = "1"
 TNext == /\ l <= Len(Rec)
          /\ l' = l + 1
          /\ LET vd == IF Expecting THEN "ok" ELSE Verdict(Rec[l]) IN
-            /\ bad' = IF vd \in {"rejected", "baddomain"} /\ Len(bad) < 50 THEN Append(bad, [id |-> Rec[l].id, why |-> vd]) ELSE bad
-            /\ att' = IF vd \notin {"ok", "rejected", "baddomain"} THEN Append(att, [id |-> Rec[l].id, dev |-> vd]) ELSE att
+            /\ bad' = IF vd \in {"rejected", "baddomain"} THEN Append(bad, [id |-> Rec[l].id, why |-> vd]) ELSE bad
+            /\ att' = IF vd \notin {"ok", "rejected", "baddomain", "drift"} THEN Append(att, [id |-> Rec[l].id, dev |-> vd]) ELSE att
+            /\ dri' = IF vd = "drift" THEN Append(dri, [id |-> Rec[l].id, beyond |-> Beyond(Rec[l])]) ELSE dri
          /\ UNCHANGED vars
 TSpec == TInit /\ [][TNext]_<<vars, tvars>>
 
@@ -77,6 +117,6 @@ ExpectInv ==
 \* checked at the last state: every record consumed; the summary is printed for the driver
 AllAgree ==
   (~Expecting /\ l = Len(Rec) + 1) =>
-     /\ PrintT(ToJson([summary |-> TRUE, n |-> Len(Rec), rejected |-> bad, attributed |-> att]))
+     /\ PrintT(ToJson([summary |-> TRUE, n |-> Len(Rec), rejected |-> bad, attributed |-> att, drift |-> dri]))
      /\ bad = <<>>
 =============================================================================
